@@ -169,6 +169,10 @@ pub const FILE_KINDS: &[(&str, Option<&[u8]>)] = &[
     ("missing", None),
     ("utf16-bom", Some(b"\xff\xfea\x00 \x00;\x00\n\x00")),
     ("large", None), // filled in by file_bytes
+    // two programs of the same shape up to a token with child lines, with different child lines (state that a
+    // worker keeps from one file to the next and keys by position would be served to the wrong file)
+    ("anon-short", Some(b"procedure Run;\nbegin\n  Register(\n      procedure\n      begin\n        Call(Alpha, Beta, Gamma, Delta);\n      end);\nend;\n")),
+    ("anon-long", Some(b"procedure Run;\nbegin\n  Register(\n      procedure\n      begin\n        Call(AlphaAlphaAlphaAlpha, BetaBetaBetaBetaBeta, GammaGammaGammaGamma, DeltaDeltaDeltaDelta);\n      end);\nend;\n")),
 ];
 
 pub fn file_bytes(kind: usize) -> Option<Vec<u8>> {
@@ -184,6 +188,10 @@ pub fn file_bytes(kind: usize) -> Option<Vec<u8>> {
 
 /// runs `pasfmt <mode> <paths>` in-process under the given schedule prefix
 pub fn execute(dir: &Path, paths: &[PathBuf], contents: &[(PathBuf, Option<Vec<u8>>)], workers: usize, mode: &str, prefix: &[usize]) -> (Outcome, Vec<PointInfo>, Vec<String>, Option<String>) {
+    execute_cfg(dir, paths, contents, workers, mode, prefix, &cfg::DEFAULT)
+}
+
+pub fn execute_cfg(dir: &Path, paths: &[PathBuf], contents: &[(PathBuf, Option<Vec<u8>>)], workers: usize, mode: &str, prefix: &[usize], fcfg: &cfg::Cfg) -> (Outcome, Vec<PointInfo>, Vec<String>, Option<String>) {
     for (p, c) in contents {
         let _ = std::fs::remove_file(p);
         if let Some(c) = c {
@@ -191,8 +199,9 @@ pub fn execute(dir: &Path, paths: &[PathBuf], contents: &[(PathBuf, Option<Vec<u
         }
     }
     let cfg_file = dir.join("pasfmt.toml");
-    if !cfg_file.exists() {
-        std::fs::write(&cfg_file, "").unwrap();
+    let want = if *fcfg == cfg::DEFAULT { String::new() } else { fcfg.toml() };
+    if std::fs::read_to_string(&cfg_file).ok().as_deref() != Some(want.as_str()) {
+        std::fs::write(&cfg_file, &want).unwrap();
     }
     let mut args: Vec<String> = vec!["pasfmt".into(), format!("--mode={mode}"), "--config-file".into(), cfg_file.display().to_string(), "--log-level".into(), "OFF".into()];
     for p in paths {
@@ -227,9 +236,15 @@ pub struct C18Family {
     pub bound: usize,
     /// the same path listed twice (aliased) instead of distinct files
     pub aliased: bool,
+    /// formatting configuration of the batch (through pasfmt.toml)
+    pub cfg: cfg::Cfg,
 }
 
 fn solo_result(bytes: &Option<Vec<u8>>, mode: &str) -> (Option<Vec<u8>>, bool) {
+    solo_result_cfg(bytes, mode, &cfg::DEFAULT)
+}
+
+fn solo_result_cfg(bytes: &Option<Vec<u8>>, mode: &str, fcfg: &cfg::Cfg) -> (Option<Vec<u8>>, bool) {
     // (expected final bytes, is the file expected to be reported as an error?)
     let Some(b) = bytes else { return (None, true) };
     let (text, bom): (Option<String>, &[u8]) = if b.starts_with(b"\xff\xfe") {
@@ -239,7 +254,7 @@ fn solo_result(bytes: &Option<Vec<u8>>, mode: &str) -> (Option<Vec<u8>>, bool) {
         (String::from_utf8(b.clone()).ok(), &b[..0])
     };
     let Some(text) = text else { return (Some(b.clone()), true) };
-    let out = cfg::DEFAULT.formatter().format(&text, pasfmt_core::prelude::FileOptions::new());
+    let out = fcfg.formatter().format(&text, pasfmt_core::prelude::FileOptions::new());
     if mode == "check" {
         return (Some(b.clone()), out != text);
     }
@@ -268,8 +283,9 @@ impl C18Family {
 impl Family for C18Family {
     fn name(&self) -> String {
         format!(
-            "c18{}:filelists({})xworkers{:?}xmodes{:?},preemptions<={}",
+            "c18{}{}:filelists({})xworkers{:?}xmodes{:?},preemptions<={}",
             if self.aliased { "aliased" } else { "" },
+            if self.cfg == cfg::DEFAULT { "" } else { "(wrap_column=60,format_multiline_strings=false)" },
             self.lists.len(),
             self.workers,
             self.modes,
@@ -291,7 +307,7 @@ impl Family for C18Family {
     }
     fn run(&self, idx: u64, ctx: &mut Ctx) {
         let (list, workers, mode) = self.decode(idx);
-        explore(&list, workers, mode, self.bound, self.aliased, ctx);
+        explore(&list, workers, mode, self.bound, self.aliased, &self.cfg, ctx);
     }
 }
 
@@ -363,12 +379,12 @@ fn setup(dir: &Path, list: &[usize], aliased: bool) -> (Vec<(PathBuf, Option<Vec
 }
 
 /// explores every schedule with at most `bound` preemptions for one batch
-pub fn explore(list: &[usize], workers: usize, mode: &'static str, bound: usize, aliased: bool, ctx: &mut Ctx) {
+pub fn explore(list: &[usize], workers: usize, mode: &'static str, bound: usize, aliased: bool, fcfg: &cfg::Cfg, ctx: &mut Ctx) {
     let dir = scratch_dir();
     let (contents, paths) = setup(&dir, list, aliased);
-    let expected: Vec<(Option<Vec<u8>>, bool)> = contents.iter().map(|(_, c)| solo_result(c, mode)).collect();
+    let expected: Vec<(Option<Vec<u8>>, bool)> = contents.iter().map(|(_, c)| solo_result_cfg(c, mode, fcfg)).collect();
     let case = |prefix: &[usize], trace: &[String]| {
-        json!({"oracle": "c18", "files": list.iter().map(|k| FILE_KINDS[*k].0).collect::<Vec<_>>(), "file_kinds": list, "workers": workers, "mode": mode,
+        json!({"oracle": "c18", "files": list.iter().map(|k| FILE_KINDS[*k].0).collect::<Vec<_>>(), "file_kinds": list, "workers": workers, "mode": mode, "cfg": fcfg,
                "aliased": aliased, "schedule": prefix, "trace": trace, "no_confirm": false})
     };
     let mut stack: Vec<Vec<usize>> = vec![vec![]];
@@ -376,7 +392,7 @@ pub fn explore(list: &[usize], workers: usize, mode: &'static str, bound: usize,
     let mut first = true;
     let mut outcomes: std::collections::HashSet<String> = Default::default();
     while let Some(prefix) = stack.pop() {
-        let (outcome, points, trace, diverged) = execute(&dir, &paths, &contents, workers, mode, &prefix);
+        let (outcome, points, trace, diverged) = execute_cfg(&dir, &paths, &contents, workers, mode, &prefix, fcfg);
         executions += 1;
         if !first {
             ctx.sub_eval();
@@ -427,9 +443,10 @@ pub fn replay(case: &Value, ctx: &mut Ctx) {
     let schedule: Vec<usize> = case["schedule"].as_array().map(|a| a.iter().filter_map(|v| v.as_u64()).map(|v| v as usize).collect()).unwrap_or_default();
     let dir = scratch_dir();
     let (contents, paths) = setup(&dir, &list, aliased);
-    let expected: Expected = contents.iter().map(|(_, c)| solo_result(c, mode)).collect();
-    let (o1, _, t1, d1) = execute(&dir, &paths, &contents, workers, mode, &schedule);
-    let (o2, _, t2, _) = execute(&dir, &paths, &contents, workers, mode, &schedule);
+    let fcfg: cfg::Cfg = serde_json::from_value(case["cfg"].clone()).unwrap_or(cfg::DEFAULT);
+    let expected: Expected = contents.iter().map(|(_, c)| solo_result_cfg(c, mode, &fcfg)).collect();
+    let (o1, _, t1, d1) = execute_cfg(&dir, &paths, &contents, workers, mode, &schedule, &fcfg);
+    let (o2, _, t2, _) = execute_cfg(&dir, &paths, &contents, workers, mode, &schedule, &fcfg);
     if o1 != o2 || t1 != t2 {
         ctx.fail("C18", "machinery:replay-not-deterministic", format!("{t1:?} vs {t2:?}"), case.clone());
     } else if let Some(d) = d1 {
